@@ -176,6 +176,9 @@ SAN_ENV = {
     "ASAN_OPTIONS": "detect_leaks=0:abort_on_error=0:exitcode=97:allocator_may_return_null=1",
     "UBSAN_OPTIONS": "print_stacktrace=1:halt_on_error=1:exitcode=98",
     "OMP_NUM_THREADS": "1",
+    # real OpenMP teams must not spin while the other probes of a check compete for the cores
+    "OMP_WAIT_POLICY": "passive",
+    "GOMP_SPINCOUNT": "0",
 }
 
 
